@@ -788,7 +788,7 @@ func report(run *ev.Run, sc schedule, att int, res *attemptResult) {
 		// and the ledgers were compared
 		built := res.net["commit_lock_rounds_established"] + res.net["backlog_rounds"] + res.net["epoch_burst_rounds"]
 		nontrivial = built > 0 && res.an.obs["heights_agreed"] > 0 && res.an.obs["node_height_hashes_compared"] > 0
-		sig += fmt.Sprintf(" built=%d", built)
+		sig += fmt.Sprintf(" race-detector=%v lagger-committed-in-burst=%v", os.Getenv("VERIF_PART") != "bursts", res.net["backlog_laggers_that_committed_during_the_burst"]+res.net["epoch_burst_laggers_that_committed_during_the_burst"] > 0)
 	}
 	if res.stall == "" || att == 3 || len(res.an.findings) > 0 {
 		run.Case(sig, nontrivial)
